@@ -46,7 +46,7 @@ def judge(cfg, name, args):
     if len(got) != len(want) or any(not isinstance(g, int) for g in got):
         return ("wrong-value", "%s%r on %s returned %r (types %s), Python gives %r" % (name, tuple(vals), ts, got, gts, want)), prog
     for g, w in zip(got, want):
-        if abs(w) >= m.p // 2:
+        if abs(w) >= m.p // 2 and name != "pow":     # pow's reference value is already the field element
             continue
         if (g - w) % m.p:
             return ("wrong-value" + ex, "%s%r on %s returned %r, Python gives %r" % (name, tuple(vals), ts, got, want)), prog
@@ -101,6 +101,25 @@ def grid_shard(cells, b, p):
     return stats
 
 
+def pow_grid_shard(b, p):
+    """secret exponents around the bit lengths of the fields (a result is a field element whatever its integer size)"""
+    stats = core.Stats()
+    known = core.load_known("C05")
+    found = {}
+    cfg = {"p": p, "b": b, "r": 0, "ignore": False}
+    lim = 1 << b
+    exps = sorted({e for e in [0, 1, 2, 3, 127, 128, 252, 253, 254, 255, 256, 257, 300, 1000, lim // 2, lim - 1] if 0 <= e < lim})
+    for ts in ("II", "iI"):
+        for x in (-3, -2, -1, 0, 1, 2, 3, 7):
+            for e in exps:
+                args = [(ts[0], "priv", x), ("I", "priv", e)]
+                res, prog = judge(cfg, "pow", args)
+                stats.case(["pow", ts, [x, e], b], True, ("op:pow", "pow-grid"), sample_cap=2)
+                record(stats, known, res, prog, "pow", ts, found)
+    stats.violations = list(found.values())
+    return stats
+
+
 def draw_case(draw):
     b = draw(st.sampled_from([2, 3, 4, 5, 8, 16, 16, 32]))
     cfg = {"p": draw(st.sampled_from(sorted(REAL_FIELDS))), "b": b, "r": 0, "ignore": False}
@@ -115,7 +134,8 @@ def draw_case(draw):
         if t in "Bb":
             v = draw(st.integers(0, 1))
         elif name == "pow" and pos == 1:
-            v = draw(st.integers(-1, min(lim + 1, 40)))
+            v = draw(st.one_of(st.integers(-1, min(lim + 1, 40)), st.integers(0, lim - 1),
+                               st.sampled_from([lim - 1, lim, 127, 128, 253, 254, 255, 256, 257, 300, 1000]))) if t in "I" else draw(st.integers(-1, min(lim + 1, 40)))
         elif name in ("lshift", "rshift") and pos == 1:
             v = draw(st.integers(-2, b + 3))
         else:
@@ -195,6 +215,8 @@ def run(ctx):
         chunks = [cs[i::16] for i in range(16)]
         total.merge_json(core.run_shards("harness.checks.c05", "grid_shard",
                                          [dict(cells=c, b=b, p=p) for c in chunks]).to_json())
+    total.merge_json(core.run_shards("harness.checks.c05", "pow_grid_shard",
+                                     [dict(b=bb, p=pp) for bb, pp in ((16, "bn128"), (9, "bls12-381"), (32, "curve25519"))]).to_json())
     total.merge_json(core.run_shards("harness.checks.c05", "random_shard",
                                      [dict(seed=ctx.seed * 1000 + i, n_examples=nrand) for i in range(nshards)]).to_json())
     total.extra["grids_enumerated_completely"] = [{"bitlength": b, "field": p, "cells": len(cs)} for b, p in grids]
